@@ -429,19 +429,53 @@ pub mod tracing {
 }
 
 pub mod zstd {
-    /// Environment model of zstd block codec (FFI, outside solver reach).
+    /// Environment model of the zstd block codec (C library behind FFI, outside solver reach). Two codecs,
+    /// selected per harness and named in its evidence:
+    ///  * IdentityOrFail: compress copies the block or reports "does not fit" (nondeterministically);
+    ///    decompress copies. Lossless, used for round-trips.
+    ///  * AnyLength: compress returns ANY length <= input (bytes arbitrary) or fails; decompress returns
+    ///    arbitrary bytes of arbitrary length <= the output buffer, or fails. Over-approximates every real
+    ///    codec; used for size bounds and decoder robustness.
+    #[derive(Clone, Copy, PartialEq, Eq)]
+    pub enum Codec { IdentityOrFail, AnyLength }
+    pub static mut CODEC: Codec = Codec::IdentityOrFail;
+    pub fn set_codec(c: Codec) { unsafe { CODEC = c; } }
+    pub const DECOMP_MAX: usize = 8;
     pub mod bulk {
-        /// identity-or-fail codec: Ok(copy) or Err (models "does not fit / incompressible")
+        use super::{Codec, CODEC};
+        fn err() -> std::io::Error { std::io::Error::from(std::io::ErrorKind::Other) }
         pub fn compress_to_buffer(src: &[u8], dst: &mut [u8], _level: i32) -> std::io::Result<usize> {
             let fail: bool = kani::any();
-            if fail || dst.len() < src.len() { return Err(std::io::Error::from(std::io::ErrorKind::Other)); }
-            dst[..src.len()].copy_from_slice(src);
-            Ok(src.len())
+            if fail { return Err(err()); }
+            match unsafe { CODEC } {
+                Codec::IdentityOrFail => {
+                    if dst.len() < src.len() { return Err(err()); }
+                    dst[..src.len()].copy_from_slice(src);
+                    Ok(src.len())
+                }
+                Codec::AnyLength => {
+                    let n: usize = kani::any();
+                    kani::assume(n <= dst.len() && n <= src.len());
+                    Ok(n)
+                }
+            }
         }
         pub fn decompress_to_buffer(src: &[u8], dst: &mut [u8]) -> std::io::Result<usize> {
-            if dst.len() < src.len() { return Err(std::io::Error::from(std::io::ErrorKind::Other)); }
-            dst[..src.len()].copy_from_slice(src);
-            Ok(src.len())
+            match unsafe { CODEC } {
+                Codec::IdentityOrFail => {
+                    if dst.len() < src.len() { return Err(err()); }
+                    dst[..src.len()].copy_from_slice(src);
+                    Ok(src.len())
+                }
+                Codec::AnyLength => {
+                    let fail: bool = kani::any();
+                    if fail { return Err(err()); }
+                    let n: usize = kani::any();
+                    // bound of the model: a hostile block inflates to at most DECOMP_MAX bytes (larger outputs are outside the claim)
+                    kani::assume(n <= dst.len() && n <= super::DECOMP_MAX);
+                    Ok(n)
+                }
+            }
         }
     }
 }
@@ -542,20 +576,39 @@ pub mod randmodel {
     /// `sample(n)` = any min(n, len) elements at distinct positions, in any order.
     pub trait IteratorRandom: Iterator + Sized {
         fn choose<R: ?Sized>(self, _rng: &mut R) -> Option<Self::Item> {
-            let mut all: Vec<Self::Item> = Vec::with_capacity(super::collections::CAP);
-            for x in self { all.push(x); }
-            if all.is_empty() { return None; }
-            let idx: usize = kani::any();
-            kani::assume(idx < all.len());
-            Some(all.swap_remove(idx))
-        }
-        fn sample<R: ?Sized>(self, rng: &mut R, amount: usize) -> Vec<Self::Item> {
-            let mut out: Vec<Self::Item> = Vec::with_capacity(super::collections::CAP);
+            use super::collections::{Slots, CAP};
+            let mut pool: Slots<Self::Item> = Slots::new();
             let mut total = 0usize;
-            for x in self { total += 1; if kani::any() { out.push(x); } }
+            for x in self { if total >= CAP { kani::assume(false); } pool.put(total, x); total += 1; }
+            if total == 0 { return None; }
+            let idx: usize = kani::any();
+            kani::assume(idx < total);
+            Some(pool.take(idx))
+        }
+        fn sample<R: ?Sized>(self, _rng: &mut R, amount: usize) -> Vec<Self::Item> {
+            use super::collections::{Slots, CAP};
+            let mut pool: Slots<Self::Item> = Slots::new();
+            let mut total = 0usize;
+            for x in self { if total >= CAP { kani::assume(false); } pool.put(total, x); total += 1; }
             let want = if total < amount { total } else { amount };
-            kani::assume(out.len() == want);
-            SliceRandom::shuffle(&mut out[..], rng);
+            // any `want` elements at pairwise distinct positions, in any order; written without Vec::push so that
+            // no re-allocation path exists (a push under a symbolic condition makes CBMC explore realloc)
+            let mut out: Vec<Self::Item> = Vec::with_capacity(CAP);
+            let base = out.as_mut_ptr();
+            let mut picked = [usize::MAX; CAP];
+            let mut j = 0;
+            while j < CAP {
+                if j < want {
+                    let idx: usize = kani::any();
+                    kani::assume(idx < total);
+                    let mut k = 0;
+                    while k < j { kani::assume(picked[k] != idx); k += 1; }
+                    picked[j] = idx;
+                    unsafe { base.add(j).write(pool.take(idx)); }
+                }
+                j += 1;
+            }
+            unsafe { out.set_len(want); }
             out
         }
     }
